@@ -13,7 +13,7 @@ EXHAUSTIVE = {}
 
 
 def generate(R, tier):
-    n = 6000 if tier == "quick" else 500000
+    n = 10000 if tier == "quick" else 500000
     for _ in range(n):
         direction = R.choice(["request", "response"])
         minor = R.choice([0, 1, 1])
